@@ -102,4 +102,8 @@ def run_verus(path, rlimit=30, threads=None, extra=()):
             for s in ch.get("spans", []):
                 spans.append((s["line_start"], s["line_end"], False, ch.get("message", "")))
         res["diags"].append(Diag(msg, spans, d.get("rendered", "")))
+    # a rustc / Verus front-end error (type error, unsupported construct) means nothing was verified
+    if any(d.classify() == "tool" for d in res["diags"]) and res["verified"] == 0 and not any(
+            d.classify() == "violated" for d in res["diags"]):
+        res["ran"] = False
     return res
